@@ -514,6 +514,7 @@ type c18Tx struct {
 	msgs    []sdk.Msg
 	strict  bool     // never share a block with another transaction of the same signers
 	lc      *c18LCOp // life-cycle operation carried by this transaction
+	ref     *c18LC   // the life-cycle marker this transaction makes another module refer to
 }
 
 func (g *c18Gen) uuid() uuid.UUID {
@@ -698,20 +699,7 @@ func (g *c18Gen) plan() *c18Tx {
 		return &c18Tx{kind: "pay-create", extra: sdk.NewCoins(sdk.NewInt64Coin(c18Stake, 10_000_000_000)), signers: []int{s}, msgs: []sdk.Msg{&exchange.MsgCreatePaymentRequest{Payment: p}}}
 	case k < 54: // marker
 		if len(g.markers) < 2 && r.Intn(2) == 0 {
-			den := fmt.Sprintf("rcoin%d", len(g.markers)+1)
-			restricted := len(g.markers) == 0
-			mt := markertypes.MarkerType_Coin
-			var req []string
-			acc := []markertypes.Access{markertypes.Access_Mint, markertypes.Access_Burn, markertypes.Access_Withdraw, markertypes.Access_Deposit, markertypes.Access_Admin, markertypes.Access_Delete}
-			if restricted {
-				mt = markertypes.MarkerType_RestrictedCoin
-				req = []string{c18KycNam}
-				acc = append(acc, markertypes.Access_Transfer)
-			}
-			msg := markertypes.NewMsgAddFinalizeActivateMarkerRequest(den, sdkmath.NewInt(1000), g.addr(2), g.addr(2), mt, false, true, false, req,
-				[]markertypes.AccessGrant{{Address: g.astr(2), Permissions: acc}}, uint64(100+r.Intn(900)), 1000)
-			g.markers = append(g.markers, den)
-			return &c18Tx{kind: "marker-add", signers: []int{2}, msgs: []sdk.Msg{msg}}
+			return g.rcoinAddTx()
 		}
 		if len(g.markers) == 0 {
 			return nil
@@ -749,20 +737,7 @@ func (g *c18Gen) plan() *c18Tx {
 	case k < 64: // metadata
 		o := 12
 		if !g.mdReady {
-			g.cspecID, g.sspecID, g.recName = g.uuid(), g.uuid(), "recname"
-			cs := mdtypes.ContractSpecification{SpecificationId: mdtypes.ContractSpecMetadataAddress(g.cspecID), OwnerAddresses: []string{g.astr(o)},
-				PartiesInvolved: []mdtypes.PartyType{mdtypes.PartyType_PARTY_TYPE_OWNER}, Source: mdtypes.NewContractSpecificationSourceHash("srchash"), ClassName: "cls",
-				Description: &mdtypes.Description{Name: "c18 cspec", Description: "verif"}}
-			ss := mdtypes.ScopeSpecification{SpecificationId: mdtypes.ScopeSpecMetadataAddress(g.sspecID), OwnerAddresses: []string{g.astr(o)},
-				PartiesInvolved: []mdtypes.PartyType{mdtypes.PartyType_PARTY_TYPE_OWNER}, ContractSpecIds: []mdtypes.MetadataAddress{cs.SpecificationId}}
-			rs := mdtypes.RecordSpecification{SpecificationId: mdtypes.RecordSpecMetadataAddress(g.cspecID, g.recName), Name: g.recName,
-				Inputs:   []*mdtypes.InputSpecification{{Name: "in1", TypeName: "typ", Source: mdtypes.NewInputSpecificationSourceHash("inhash")}},
-				TypeName: "typ", ResultType: mdtypes.DefinitionType_DEFINITION_TYPE_RECORD, ResponsibleParties: []mdtypes.PartyType{mdtypes.PartyType_PARTY_TYPE_OWNER}}
-			g.mdReady = true
-			return &c18Tx{kind: "md-specs", gas: 1_500_000, signers: []int{o}, msgs: []sdk.Msg{
-				mdtypes.NewMsgWriteContractSpecificationRequest(cs, []string{g.astr(o)}),
-				mdtypes.NewMsgWriteScopeSpecificationRequest(ss, []string{g.astr(o)}),
-				mdtypes.NewMsgWriteRecordSpecificationRequest(rs, []string{g.astr(o)})}}
+			return g.mdSpecsTx()
 		}
 		party := []mdtypes.Party{{Address: g.astr(o), Role: mdtypes.PartyType_PARTY_TYPE_OWNER}}
 		switch c := r.Intn(7); {
@@ -780,11 +755,7 @@ func (g *c18Gen) plan() *c18Tx {
 			g.scopes = append(append([]uuid.UUID{}, g.scopes[:i]...), g.scopes[i+1:]...)
 			return &c18Tx{kind: "md-scope-delete", gas: 1_500_000, signers: signers, msgs: []sdk.Msg{mdtypes.NewMsgDeleteScopeRequest(mdtypes.ScopeMetadataAddress(id), names)}}
 		case c < 2 || len(g.scopes) == 0:
-			id := g.uuid()
-			sc := mdtypes.Scope{ScopeId: mdtypes.ScopeMetadataAddress(id), SpecificationId: mdtypes.ScopeSpecMetadataAddress(g.sspecID), Owners: party,
-				DataAccess: []string{g.astr(9)}, ValueOwnerAddress: g.astr(g.pick(12, 9))}
-			g.scopes = append(g.scopes, id)
-			return &c18Tx{kind: "md-scope", gas: 1_000_000, signers: []int{o}, msgs: []sdk.Msg{mdtypes.NewMsgWriteScopeRequest(sc, []string{g.astr(o)}, 0)}}
+			return g.mdScopeTx(g.astr(9))
 		case c == 2:
 			id := g.scopes[r.Intn(len(g.scopes))]
 			sid := g.uuid()
@@ -933,6 +904,54 @@ func (g *c18Gen) plan() *c18Tx {
 	}
 }
 
+// mdSpecsTx: the contract / scope / record specifications every scope of the history uses
+func (g *c18Gen) mdSpecsTx() *c18Tx {
+	o := 12
+	g.cspecID, g.sspecID, g.recName = g.uuid(), g.uuid(), "recname"
+	cs := mdtypes.ContractSpecification{SpecificationId: mdtypes.ContractSpecMetadataAddress(g.cspecID), OwnerAddresses: []string{g.astr(o)},
+		PartiesInvolved: []mdtypes.PartyType{mdtypes.PartyType_PARTY_TYPE_OWNER}, Source: mdtypes.NewContractSpecificationSourceHash("srchash"), ClassName: "cls",
+		Description: &mdtypes.Description{Name: "c18 cspec", Description: "verif"}}
+	ss := mdtypes.ScopeSpecification{SpecificationId: mdtypes.ScopeSpecMetadataAddress(g.sspecID), OwnerAddresses: []string{g.astr(o)},
+		PartiesInvolved: []mdtypes.PartyType{mdtypes.PartyType_PARTY_TYPE_OWNER}, ContractSpecIds: []mdtypes.MetadataAddress{cs.SpecificationId}}
+	rs := mdtypes.RecordSpecification{SpecificationId: mdtypes.RecordSpecMetadataAddress(g.cspecID, g.recName), Name: g.recName,
+		Inputs:   []*mdtypes.InputSpecification{{Name: "in1", TypeName: "typ", Source: mdtypes.NewInputSpecificationSourceHash("inhash")}},
+		TypeName: "typ", ResultType: mdtypes.DefinitionType_DEFINITION_TYPE_RECORD, ResponsibleParties: []mdtypes.PartyType{mdtypes.PartyType_PARTY_TYPE_OWNER}}
+	g.mdReady = true
+	return &c18Tx{kind: "md-specs", gas: 1_500_000, signers: []int{o}, msgs: []sdk.Msg{
+		mdtypes.NewMsgWriteContractSpecificationRequest(cs, []string{g.astr(o)}),
+		mdtypes.NewMsgWriteScopeSpecificationRequest(ss, []string{g.astr(o)}),
+		mdtypes.NewMsgWriteRecordSpecificationRequest(rs, []string{g.astr(o)})}}
+}
+
+// mdScopeTx: a new scope (data access to the given address)
+func (g *c18Gen) mdScopeTx(access string) *c18Tx {
+	o := 12
+	party := []mdtypes.Party{{Address: g.astr(o), Role: mdtypes.PartyType_PARTY_TYPE_OWNER}}
+	id := g.uuid()
+	sc := mdtypes.Scope{ScopeId: mdtypes.ScopeMetadataAddress(id), SpecificationId: mdtypes.ScopeSpecMetadataAddress(g.sspecID), Owners: party,
+		DataAccess: []string{access}, ValueOwnerAddress: g.astr(g.pick(12, 9))}
+	g.scopes = append(g.scopes, id)
+	return &c18Tx{kind: "md-scope", gas: 1_000_000, signers: []int{o}, msgs: []sdk.Msg{mdtypes.NewMsgWriteScopeRequest(sc, []string{g.astr(o)}, 0)}}
+}
+
+// rcoinAddTx: the next long-lived marker of the history (the first one restricted, requiring kyc.verif)
+func (g *c18Gen) rcoinAddTx() *c18Tx {
+	den := fmt.Sprintf("rcoin%d", len(g.markers)+1)
+	restricted := len(g.markers) == 0
+	mt := markertypes.MarkerType_Coin
+	var req []string
+	acc := []markertypes.Access{markertypes.Access_Mint, markertypes.Access_Burn, markertypes.Access_Withdraw, markertypes.Access_Deposit, markertypes.Access_Admin, markertypes.Access_Delete}
+	if restricted {
+		mt = markertypes.MarkerType_RestrictedCoin
+		req = []string{c18KycNam}
+		acc = append(acc, markertypes.Access_Transfer)
+	}
+	msg := markertypes.NewMsgAddFinalizeActivateMarkerRequest(den, sdkmath.NewInt(1000), g.addr(2), g.addr(2), mt, false, true, false, req,
+		[]markertypes.AccessGrant{{Address: g.astr(2), Permissions: acc}}, uint64(100+g.r.Intn(900)), 1000)
+	g.markers = append(g.markers, den)
+	return &c18Tx{kind: "marker-add", signers: []int{2}, msgs: []sdk.Msg{msg}}
+}
+
 func (g *c18Gen) pick2(a, b string) string {
 	if g.r.Intn(2) == 0 {
 		return a
@@ -995,12 +1014,6 @@ func (g *c18Gen) buildBlock(nTx int, burst bool, must []*c18Tx) c18Built {
 	if v := g.votes(); v != nil {
 		add(v, true)
 	}
-	for _, p := range must {
-		add(p, false)
-	}
-	for i := 0; i < nTx; i++ {
-		add(g.plan(), false)
-	}
 	if burst {
 		// burst: several triggers due at the same height / time, so that more than one is
 		// detected in one block and the queue holds several (also at export time)
@@ -1019,6 +1032,12 @@ func (g *c18Gen) buildBlock(nTx int, burst bool, must []*c18Tx) c18Built {
 			}
 			add(&c18Tx{kind: "trigger-burst", gas: 1_200_000, signers: []int{o}, msgs: []sdk.Msg{msg}}, false)
 		}
+	}
+	for _, p := range must {
+		add(p, false)
+	}
+	for i := 0; i < nTx; i++ {
+		add(g.plan(), false)
 	}
 	return bl
 }
@@ -1039,6 +1058,14 @@ func (g *c18Gen) runBlock(bl c18Built, at time.Time) (*abci.ResponseFinalizeBloc
 			}
 		} else if strings.HasPrefix(bl.kinds[i], "gov-param") || strings.HasPrefix(bl.kinds[i], "lc-") || strings.HasPrefix(bl.kinds[i], "gov-vote") {
 			g.w.Count("ok_" + strings.SplitN(bl.kinds[i], ":", 2)[0])
+		}
+	}
+	for i, p := range bl.plans {
+		if p.ref != nil && i < len(res.TxResults) {
+			p.ref.refs++
+			if res.TxResults[i].Code == 0 {
+				g.w.Count("ok_" + p.kind)
+			}
 		}
 	}
 	oks := make([]bool, len(bl.lcOps))
@@ -1066,7 +1093,11 @@ func (g *c18Gen) runHistory(genesis c18Genesis, nBlocks int) (c18Script, error) 
 		}
 		// every block carries at least one life-cycle transaction (a new marker or the next step of one)
 		must = append(must, g.lcPlan())
-		bl := g.buildBlock(2+g.r.Intn(7), b%9 == 4 || b == nBlocks-1, must)
+		// ... and one transaction that makes another module refer to a life-cycle marker or a scope
+		must = append(must, g.refPlan())
+		// bursts of triggers due three blocks later; the one of block nBlocks-3 falls due in the LAST
+		// block, so that the export holds a non-empty queue (whose start index earlier bursts advanced)
+		bl := g.buildBlock(2+g.r.Intn(7), b%9 == 4 || b == nBlocks-1 || b == nBlocks-3, must)
 		at = g.n.now.Add(time.Duration(3+g.r.Intn(25)) * time.Second)
 		if _, err := g.runBlock(bl, at); err != nil {
 			return sc, err
@@ -1164,6 +1195,8 @@ func TestC18(t *testing.T) {
 	// second history shape (determinism validation): many accounts, fee-bearing messages with
 	// several distinct fee recipients per block
 	c18FeeShape(t, r, w)
+	// scripted governance history with dependent transactions: primary against rerun and shadow node
+	c18ParamScript(t, r, w, genesis)
 	// scripted scenario: quarantine record with accepted and unaccepted senders through export / import
 	c18QuarantineCase(t, w)
 	// scripted scenarios: governance tightens a parameter under existing state, then export / import
